@@ -206,7 +206,7 @@ class BurstInterp(Interp):
         for i, op in enumerate(prog.get("ops", [])):
             self.op_index = i
             await self.do_op(op)
-        if prog.get("family") in ("random", "churn", "delete-race"):
+        if prog.get("family") in ("random", "churn", "delete-race", "rename-race"):
             self.compare = False
             await self.run_concurrent(prog["burst_ops"])
             await self.teardown()
@@ -565,6 +565,30 @@ def generate(seed, tier, index, kf):
                 ops.append({"s": "sc", "op": "fetch", "uid": False, "set": {"pos": [1]}, "items": "(FLAGS)", "when": d})
         base["latency"] = {"exec": r.choice(("small", "bimodal")), "db": r.choice(("zero", "small")), "net": r.choice(("zero", "small"))}
         base.update({"family": "delete-race", "burst_ops": ops, "ops": [], "props": [PROP], "compare": False, "sessions": [{"id": s_, "proto": "imap"} for s_ in sids]})
+        return base
+    if r.random() < 0.06:
+        # "rename-race": a mailbox is RENAMEd away while another session is just activating it (SELECT/STATUS of a
+        # mailbox that is not in memory yet), and then further commands name it. Whatever the first ones answer, the
+        # later ones are answered (progress oracle: no command is left to the watchdog).
+        sids = ["sa", "sb", "sc"]
+        prof = {"mailboxes": ["inbox", "work"], "sessions": 3, "init_lo": 1, "init_hi": 3, "ops_lo": 1, "ops_hi": 1, "mode": "concurrent", "quiet_p": 0.0, "weights": {"noop": 1}}
+        base = mailstore.generate(seed, prof)
+        d0 = r.choice((0.0, 0.001, 0.003, 0.01, 0.03))
+        ops = [
+            {"s": "sb", "op": "rename", "name": "work", "to": r.choice(("w2", "x/w")), "when": {"delay": r.choice((0.0, 0.001, 0.005, 0.02))}},
+            {"s": "sa", "op": r.choice(("select", "select", "status")), "mbox": "work", "examine": False, "when": {"delay": d0}},
+        ]
+        for _k in range(r.randint(2, 4)):
+            x = r.random()
+            d = {"delay": r.choice((0.05, 0.2, 0.5, 1.0))}
+            if x < 0.4:
+                ops.append({"s": "sc", "op": "create", "name": r.choice(("work/y", "work")), "when": d})
+            elif x < 0.7:
+                ops.append({"s": r.choice(("sa", "sc")), "op": "status", "mbox": "work", "when": d})
+            else:
+                ops.append({"s": r.choice(("sa", "sc")), "op": "select", "mbox": "work", "examine": False, "when": d})
+        base["latency"] = {"exec": r.choice(("small", "bimodal")), "db": r.choice(("zero", "small")), "net": r.choice(("zero", "small"))}
+        base.update({"family": "rename-race", "burst_ops": ops, "ops": [], "props": [PROP], "compare": False, "sessions": [{"id": s_, "proto": "imap"} for s_ in sids]})
         return base
     store, tok = mailstore.initial_store(r, ["inbox", "work"], 3, 8, kw=["kw1"])
     burst, sel = gen_burst(r, store, sids)
